@@ -64,6 +64,20 @@ internal_limits:
         gc_interval_sec: 1
 `
 
+// a concurrent quota whose members expire after one second: part of the transactions sent to exp.com are
+// abandoned (no response ever comes), so the expiry collector removes members while other transactions are
+// being admitted and released on the same quota
+const quotasExp = `quotas:
+  - id: qexp
+    filter:
+      url: exp.com/*
+    strategy:
+      concurrent:
+        max_request_count: 200
+        request_expiration_sec: 1
+        gc_interval_sec: 1
+`
+
 const quotasQueue = `quotas:
   - id: qq
     filter:
@@ -339,20 +353,21 @@ var selPaths = []string{"a", "b", "c", "d"}
 func config() sim.Config {
 	return sim.Config{
 		Flows: map[string]string{
-			"sw1.yaml": selFlow("sw1", "sel.com/*"),
-			"sw2.yaml": selFlow("sw2", "sel.com/*"),
-			"sw3.yaml": selFlow("sw3", "sel.com/*"),
-			"sa.yaml":  selFlow("sa", "sel.com/a"),
-			"sb.yaml":  selFlow("sb", "sel.com/b"),
-			"sc.yaml":  selFlow("sc", "sel.com/c"),
-			"sd.yaml":  selFlow("sd", "sel.com/d"),
+			"sw1.yaml":    selFlow("sw1", "sel.com/*"),
+			"sw2.yaml":    selFlow("sw2", "sel.com/*"),
+			"sw3.yaml":    selFlow("sw3", "sel.com/*"),
+			"sa.yaml":     selFlow("sa", "sel.com/a"),
+			"sb.yaml":     selFlow("sb", "sel.com/b"),
+			"sc.yaml":     selFlow("sc", "sel.com/c"),
+			"sd.yaml":     selFlow("sd", "sel.com/d"),
 			"flim.yaml":   limiterFlow("flim", "lim.com", "qfixchild"),
 			"fconc.yaml":  limiterFlow("fconc", "conc.com", "qconc"),
+			"fexp.yaml":   limiterFlow("fexp", "exp.com", "qexp"),
 			"fqueue.yaml": queueFlow,
 			"fretry.yaml": retryFlow,
 			"fprobe.yaml": probeFlow,
 		},
-		Quotas: map[string]string{"qfix.yaml": quotas, "qconc.yaml": quotasConc, "qq.yaml": quotasQueue},
+		Quotas: map[string]string{"qfix.yaml": quotas, "qconc.yaml": quotasConc, "qq.yaml": quotasQueue, "qexp.yaml": quotasExp},
 	}
 }
 
@@ -365,11 +380,23 @@ type stats struct {
 	probes                    atomic.Int64
 	noReply                   atomic.Int64
 	selections                atomic.Int64
+	expAdmitted, expAbandoned atomic.Int64
 }
 
 func worker(eng *sim.Engine, round, wk, n int, st *stats, r *sim.Rand) {
 	for i := 0; i < n; i++ {
 		id := fmt.Sprintf("r%d-w%d-%d", round, wk, i)
+		if (wk+i)%4 == 0 { // besides its main transaction: one on the expiring quota, every second one abandoned
+			eid := id + "-exp"
+			if res := eng.SendRequest(sim.Txn{ID: eid, Method: "GET", URL: "exp.com/x", Headers: map[string]string{}}); !res.Early() {
+				st.expAdmitted.Add(1)
+				if i%2 == 0 {
+					eng.SendResponse(sim.Txn{ID: eid, Method: "GET", URL: "exp.com/x", Status: 200})
+				} else {
+					st.expAbandoned.Add(1)
+				}
+			}
+		}
 		switch (wk + i) % 6 {
 		case 5: // flow selection isolation: the id names the path, the hook events name the flows that ran
 			p := selPaths[(wk+i/6)%len(selPaths)]
@@ -554,6 +581,29 @@ func main() {
 				worker(eng, round, wk, per, st, args.CaseRand(round*100+wk))
 			}(wk)
 		}
+		// the expiring quota: a block of abandoned transactions first; traffic on that quota then runs until
+		// the collector has had two ticks to find them expired (workload shaping only, nothing is judged on time)
+		abandonedAt := time.Now()
+		if !noisy {
+			for k := 0; k < 60; k++ {
+				eng.SendRequest(sim.Txn{ID: fmt.Sprintf("r%d-abandoned-%d", round, k), Method: "GET", URL: "exp.com/x", Headers: map[string]string{}})
+			}
+			st.expAbandoned.Add(60)
+			bg.Add(1)
+			go func() {
+				defer bg.Done()
+				for k := 0; !stop.Load() || time.Since(abandonedAt) < 2600*time.Millisecond; k++ {
+					eid := fmt.Sprintf("r%d-expbg-%d", round, k)
+					if res := eng.SendRequest(sim.Txn{ID: eid, Method: "GET", URL: "exp.com/x", Headers: map[string]string{}}); !res.Early() {
+						st.expAdmitted.Add(1)
+						eng.SendResponse(sim.Txn{ID: eid, Method: "GET", URL: "exp.com/x", Status: 200})
+					}
+					if time.Since(abandonedAt) > 6*time.Second {
+						break
+					}
+				}
+			}()
+		}
 		close(start)
 		wg.Wait()
 		stop.Store(true)
@@ -570,6 +620,8 @@ func main() {
 		v.Count("queue_allowed", int(st.queueAllowed.Load()))
 		v.Count("queue_blocked", int(st.queueBlock.Load()))
 		v.Count("retries_requested", int(st.retryAsked.Load()))
+		v.Count("expiring_quota_admitted", int(st.expAdmitted.Load()))
+		v.Count("expiring_quota_abandoned", int(st.expAbandoned.Load()))
 		note := fmt.Sprintf("round %d noisy=%v: lim %d/%d conc %d/%d (max in flight seen %d) queue %d/%d retries %d probes %d scrapes %d reloads %d",
 			round, noisy, st.limAdmitted.Load(), st.limRefused.Load(), st.concAdmitted.Load(), st.concRefused.Load(), st.concMax.Load(),
 			st.queueAllowed.Load(), st.queueBlock.Load(), st.retryAsked.Load(), st.probes.Load(), scrapes, reloads)
